@@ -129,7 +129,7 @@ Section Lift.
       apply Forall_app. split; [exact HF|]. constructor; [apply CI_new|constructor].
     - destruct (stop_step_conns s i s' H) as [->| ->]; [exact HF|].
       unfold interrupt_all. rewrite Forall_forall in *. intros x Hx. apply in_map_iff in Hx.
-      destruct Hx as (y & <- & Hy). apply CI_intr. apply HF. exact Hy.
+      destruct Hx as (y & <- & Hy). unfold interrupt_tracked. destruct (tracked y); [apply CI_intr|]; apply HF; exact Hy.
     - eapply with_conn_forall; [exact HF| |exact H]. intros; eapply CI_conn; eauto.
     - eapply with_conn_forall; [exact HF| |exact H]. intros c0 c1 e0 Hc Hh. cbv beta in Hh. eapply CI_handler; eauto.
     - destruct (run s); try discriminate. inversion H; exact HF.
@@ -167,19 +167,19 @@ Qed.
    the effects of the executed prefix are exactly the recorded ones *)
 Definition mem_t (t : tstep) (l : list tstep) : bool :=
   existsb (fun x => match t, x with
-                    | TWgDone, TWgDone | TWaitHandlers, TWaitHandlers | TSockClose, TSockClose | TOnClose, TOnClose => true
+                    | TWgDone, TWgDone | TWaitHandlers, TWaitHandlers | TSockClose, TSockClose | TOnClose, TOnClose | TUntrack, TUntrack => true
                     | _, _ => false end) l.
 
 Definition done_of (cfg : config) (c : conn) : list tstep :=
   match pc c with
-  | CTeardown todo => firstn (4 - length todo) (teardown_of cfg)
+  | CTeardown todo => firstn (5 - length todo) (teardown_of cfg)
   | CDone => teardown_of cfg
   | _ => []
   end.
 
 Definition td_inv (cfg : config) (c : conn) : Prop :=
   (match pc c with
-   | CTeardown todo => todo = skipn (4 - length todo) (teardown_of cfg) /\ length todo <= 4
+   | CTeardown todo => todo = skipn (5 - length todo) (teardown_of cfg) /\ length todo <= 5
    | _ => True
    end) /\
   onclose c = (if has_onclose cfg && mem_t TOnClose (done_of cfg c) then 1 else 0) /\
@@ -191,9 +191,11 @@ Definition td_inv (cfg : config) (c : conn) : Prop :=
   True.
 
 Lemma teardown_of_cases cfg :
-  teardown_of cfg = [TWaitHandlers; TSockClose; TOnClose; TWgDone] \/
-  teardown_of cfg = [TWgDone; TWaitHandlers; TSockClose; TOnClose].
-Proof. unfold teardown_of. destruct (wg_last cfg); auto. Qed.
+  teardown_of cfg = [TWaitHandlers; TSockClose; TUntrack; TOnClose; TWgDone] \/
+  teardown_of cfg = [TUntrack; TWaitHandlers; TSockClose; TOnClose; TWgDone] \/
+  teardown_of cfg = [TWgDone; TWaitHandlers; TSockClose; TUntrack; TOnClose] \/
+  teardown_of cfg = [TWgDone; TUntrack; TWaitHandlers; TSockClose; TOnClose].
+Proof. unfold teardown_of, teardown_core. destruct (wg_last cfg); destruct (untrack_late cfg); cbn; auto. Qed.
 
 Ltac td_start cfg c H :=
   destruct H as (Hsuf & Hoc & Hsc & Hwg & Hwait & Hinf & _);
@@ -208,7 +210,7 @@ Lemma td_inv_enter cfg c c' :
   wgdone c' = wgdone c -> inflight c' = inflight c -> hs c' = hs c -> td_inv cfg c'.
 Proof.
   intros H Hpc Hpc' Ho Hs Hw Hi Hh. td_start cfg c H.
-  assert (length (teardown_of cfg) = 4) as Hl by (destruct (teardown_of_cases cfg) as [-> | ->]; reflexivity).
+  assert (length (teardown_of cfg) = 5) as Hl by (destruct (teardown_of_cases cfg) as [-> |[-> |[-> | ->]]]; reflexivity).
   unfold td_inv, done_of. rewrite Hpc', Hl. cbn [Nat.sub firstn skipn].
   destruct (pc c); try contradiction; cbn in *;
     rewrite Ho, Hs, Hw, Hi, Hh; rewrite andb_false_r in Hoc; cbn [mem_t existsb]; rewrite andb_false_r;
@@ -216,12 +218,12 @@ Proof.
 Qed.
 
 (* executing the head of the remaining teardown *)
-Lemma td_split cfg t rest : t :: rest = skipn (4 - length (t :: rest)) (teardown_of cfg) -> length (t :: rest) <= 4 ->
-  firstn (4 - length rest) (teardown_of cfg) = firstn (4 - length (t :: rest)) (teardown_of cfg) ++ [t] /\
-  rest = skipn (4 - length rest) (teardown_of cfg).
+Lemma td_split cfg t rest : t :: rest = skipn (5 - length (t :: rest)) (teardown_of cfg) -> length (t :: rest) <= 5 ->
+  firstn (5 - length rest) (teardown_of cfg) = firstn (5 - length (t :: rest)) (teardown_of cfg) ++ [t] /\
+  rest = skipn (5 - length rest) (teardown_of cfg).
 Proof.
-  intros H Hl. destruct (teardown_of_cases cfg) as [E|E]; rewrite E in *; cbn [length] in *;
-  destruct rest as [|a [|b [|c0 [|d r]]]]; cbn in *; try lia;
+  intros H Hl. destruct (teardown_of_cases cfg) as [E|[E|[E|E]]]; rewrite E in *; cbn [length] in *;
+  destruct rest as [|a [|b [|c0 [|d [|e0 r]]]]]; cbn in *; try lia;
     inversion H; subst; split; reflexivity.
 Qed.
 
@@ -271,11 +273,11 @@ Proof.
     destruct todo as [|t rest].
     + inversion Hs; subst. unfold td_inv, done_of. cbn [pc set_pc].
       cbn [length Nat.sub] in *.
-      assert (firstn 4 (teardown_of cfg) = teardown_of cfg) as Hf
-          by (destruct (teardown_of_cases cfg) as [-> | ->]; reflexivity).
+      assert (firstn 5 (teardown_of cfg) = teardown_of cfg) as Hf
+          by (destruct (teardown_of_cases cfg) as [-> |[-> |[-> | ->]]]; reflexivity).
       rewrite Hf in *. cbn. repeat split; auto.
     + destruct (td_split cfg t rest Hsuf Hlen) as [Hfirst Hrest].
-      assert (length rest <= 4) as Hlr by (cbn in Hlen; lia).
+      assert (length rest <= 5) as Hlr by (cbn in Hlen; lia).
       destruct t.
       * inversion Hs; subst. unfold td_inv, done_of. cbn [pc onclose sock_closed wgdone inflight hs].
         rewrite Hfirst, !mem_t_app. cbn [mem_t existsb orb]. rewrite !orb_false_r, orb_true_r.
@@ -297,10 +299,13 @@ Proof.
            rewrite Hfirst, !mem_t_app. cbn [mem_t existsb orb]. rewrite !orb_false_r, orb_true_r.
            rewrite Eh in *. cbn [andb] in *.
            (* OnClose had not been executed before: TOnClose occurs once in the list *)
-           assert (mem_t TOnClose (firstn (4 - length (TOnClose :: rest)) (teardown_of cfg)) = false) as Hnot.
-           { destruct (teardown_of_cases cfg) as [E|E]; rewrite E in *; cbn [length] in *;
-             destruct rest as [|a [|b [|c0 [|d r]]]]; cbn in *; try lia; inversion Hsuf; reflexivity. }
+           assert (mem_t TOnClose (firstn (5 - length (TOnClose :: rest)) (teardown_of cfg)) = false) as Hnot.
+           { destruct (teardown_of_cases cfg) as [E|[E|[E|E]]]; rewrite E in *; cbn [length] in *;
+             destruct rest as [|a [|b [|c0 [|d [|e0 r]]]]]; cbn in *; try lia; inversion Hsuf; reflexivity. }
            rewrite Hnot in Hoc. rewrite Hoc. repeat split; auto.
+      * inversion Hs; subst. unfold td_inv, done_of. cbn [pc set_pc onclose sock_closed wgdone inflight hs].
+        rewrite Hfirst, !mem_t_app. cbn [mem_t existsb orb]. rewrite !orb_false_r.
+        repeat split; auto.
   - discriminate.
 Qed.
 
@@ -465,6 +470,7 @@ Proof.
       * inversion Hs; subst. unfold num_inv. fields. num_fin Hub Hst.
       * destruct (negb (has_onclose cfg)); [inversion Hs; subst; unfold num_inv; fields; num_fin Hub Hst|].
         destruct (onclose_held s); [discriminate|]. inversion Hs; subst. unfold num_inv. fields. num_fin Hub Hst.
+      * inversion Hs; subst. unfold num_inv. fields. num_fin Hub Hst.
   - discriminate.
 Qed.
 
@@ -533,7 +539,7 @@ Proof.
     destruct (negb (hstep_enabled s c h)); [discriminate|].
     destruct h; [|destruct (recovery cfg)|..]; inversion H; reflexivity.
   - destruct todo as [|t rest]; [inversion H; reflexivity|].
-    destruct t; [|destruct (inflight c =? 0); [|discriminate]| |destruct (negb (has_onclose cfg)); [|destruct (onclose_held s); [discriminate|]]];
+    destruct t; [|destruct (inflight c =? 0); [|discriminate]| |destruct (negb (has_onclose cfg)); [|destruct (onclose_held s); [discriminate|]]|];
       inversion H; reflexivity.
   - discriminate.
 Qed.
@@ -582,6 +588,11 @@ Proof.
     rewrite E in Hx. apply H. exact Hx.
 Qed.
 
+Lemma interrupt_tracked_cases c : interrupt_tracked c = interrupt c \/ interrupt_tracked c = c.
+Proof. unfold interrupt_tracked. destruct (tracked c); auto. Qed.
+Lemma cid_interrupt_tracked c : cid (interrupt_tracked c) = cid c.
+Proof. destruct (interrupt_tracked_cases c) as [-> | ->]; reflexivity. Qed.
+
 Theorem ids_inv_reachable cfg s : reachable cfg s -> ids_inv s.
 Proof.
   apply invariant_reachable.
@@ -612,7 +623,7 @@ Proof.
       * inversion Hs; subst; split; auto.
       * inversion Hs; subst. split; cbn.
         -- intros j x Hx. unfold interrupt_all in Hx. rewrite nth_error_map in Hx.
-           destruct (nth_error (conns s0) j) as [y|] eqn:Ey; [|discriminate]. inversion Hx; subst. cbn. apply Hids. exact Ey.
+           destruct (nth_error (conns s0) j) as [y|] eqn:Ey; [|discriminate]. inversion Hx; subst. rewrite cid_interrupt_tracked. apply Hids. exact Ey.
         -- unfold interrupt_all. rewrite map_length. destruct (run s0); auto.
            destruct Hnext as [-> ->]. auto. destruct Hnext as [-> ->]. auto.
       * destruct (connwg s0 =? 0); [inversion Hs; subst; split; auto|discriminate].
@@ -803,7 +814,7 @@ Proof.
     destruct (negb (hstep_enabled s c h)); [discriminate|]. rewrite Hr in H.
     destruct h; inversion H; discriminate.
   - destruct todo as [|t rest]; [inversion H; discriminate|].
-    destruct t; [|destruct (inflight c =? 0); [|discriminate]| |destruct (negb (has_onclose cfg)); [|destruct (onclose_held s); [discriminate|]]];
+    destruct t; [|destruct (inflight c =? 0); [|discriminate]| |destruct (negb (has_onclose cfg)); [|destruct (onclose_held s); [discriminate|]]|];
       inversion H; discriminate.
   - discriminate.
 Qed.
@@ -952,7 +963,9 @@ Qed.
 Lemma pending_map_intr cs : pending (interrupt_all cs) = pending cs.
 Proof.
   unfold pending, interrupt_all. induction cs as [|x r IH]; [reflexivity|].
-  cbn [map List.filter]. replace (not_done (interrupt x)) with (not_done x) by reflexivity.
+  cbn [map List.filter].
+  replace (not_done (interrupt_tracked x)) with (not_done x)
+    by (destruct (interrupt_tracked_cases x) as [-> | ->]; reflexivity).
   destruct (not_done x); cbn [length]; rewrite IH; reflexivity.
 Qed.
 
@@ -974,12 +987,13 @@ Proof.
     + inversion H; subst. left. split; [reflexivity|]. split; [|reflexivity].
       (* TWgDone had not been executed: it occurs once in the list *)
       unfold td_inv, done_of in Htd. rewrite Epc in Htd. destruct Htd as ((Hsuf & Hlen) & _ & _ & Hwg & _).
-      rewrite Hwg. destruct (teardown_of_cases cfg) as [E|E]; rewrite E in *; cbn [length] in *;
-        destruct rest as [|a [|b [|c0 [|d r]]]]; cbn in *; try lia; inversion Hsuf; reflexivity.
+      rewrite Hwg. destruct (teardown_of_cases cfg) as [E|[E|[E|E]]]; rewrite E in *; cbn [length] in *;
+        destruct rest as [|a [|b [|c0 [|d [|e0 r]]]]]; cbn in *; try lia; inversion Hsuf; reflexivity.
     + destruct (inflight c =? 0); [|discriminate]. inversion H; subst. right. split; [discriminate|reflexivity].
     + inversion H; subst. right. split; [discriminate|reflexivity].
     + destruct (negb (has_onclose cfg)); [inversion H; subst; right; split; [discriminate|reflexivity]|].
       destruct (onclose_held s); [discriminate|]. inversion H; subst. right. split; [discriminate|reflexivity].
+    + inversion H; subst. right. split; [discriminate|reflexivity].
   - discriminate.
 Qed.
 
@@ -1113,15 +1127,16 @@ Qed.
    done everything else *)
 Lemma wgdone_last_quiet cfg c : wg_last cfg = true -> td_inv cfg c -> wgdone c = true -> conn_quiet cfg c.
 Proof.
-  intros Hl (Hsuf & Hoc & Hsc & Hwg & Hwait & Hinf & _) Hw. unfold conn_quiet, done_of, teardown_of in *.
+  intros Hl (Hsuf & Hoc & Hsc & Hwg & Hwait & Hinf & _) Hw. unfold conn_quiet, done_of, teardown_of, teardown_core in *.
   rewrite Hl in *. rewrite Hw in Hwg.
-  destruct (pc c) as [| | |k sc|todo|]; cbn in Hwg; try discriminate.
-  - destruct Hsuf as [Hsuf Hlen].
-    destruct todo as [|a [|b [|c0 [|d r]]]]; cbn in *; try discriminate; try lia.
-    rewrite Hoc, Hsc. rewrite andb_true_r. specialize (Hwait eq_refl). rewrite Hwait in Hinf.
-    repeat split; auto. destruct (hs c); [reflexivity|discriminate].
-  - cbn in *. rewrite Hoc, Hsc. rewrite andb_true_r. specialize (Hwait eq_refl). rewrite Hwait in Hinf.
-    repeat split; auto. destruct (hs c); [reflexivity|discriminate].
+  destruct (untrack_late cfg); cbn [app] in *;
+  (destruct (pc c) as [| | |k sc|todo|]; cbn in Hwg; try discriminate;
+   [ destruct Hsuf as [Hsuf Hlen];
+     destruct todo as [|a [|b [|c0 [|d [|e0 r]]]]]; cbn in *; try discriminate; try lia;
+     rewrite Hoc, Hsc; rewrite andb_true_r; specialize (Hwait eq_refl); rewrite Hwait in Hinf;
+     repeat split; auto; destruct (hs c); [reflexivity|discriminate]
+   | cbn in *; rewrite Hoc, Hsc; rewrite andb_true_r; specialize (Hwait eq_refl); rewrite Hwait in Hinf;
+     repeat split; auto; destruct (hs c); [reflexivity|discriminate] ]).
 Qed.
 
 Theorem quiescent_after_stop cfg s :
@@ -1155,9 +1170,30 @@ Proof. eexists. split; [vm_compute; reflexivity|]. repeat split. eexists. repeat
 (* ---------------------------------------------------------------- *)
 (* Stop's pass: every connection is interrupted                        *)
 
+(* a connection Stop's pass did not reach had already left the table *)
+Definition reached (c : conn) : Prop := interrupted c = true \/ tracked c = false.
+
 Definition intr_inv (cfg : config) (s : state) : Prop :=
   stop_interrupts cfg = true -> existsb past_interrupt (stops s) = true ->
-  Forall (fun c => interrupted c = true) (conns s).
+  Forall reached (conns s).
+
+Lemma conn_step_untracked cfg s c c' e : conn_step cfg s c = Some (c', e) -> tracked c = false -> tracked c' = false.
+Proof.
+  unfold conn_step, tracked. intros H Ht.
+  destruct (pc c) as [| | |k sc|todo|]; try discriminate.
+  destruct todo as [|t rest]; [inversion H; reflexivity|].
+  cbn in Ht. apply orb_false_iff in Ht. destruct Ht as [Ht1 Ht2].
+  destruct t; [|destruct (inflight c =? 0); [|discriminate]| |destruct (negb (has_onclose cfg)); [|destruct (onclose_held s); [discriminate|]]|];
+    inversion H; subst; cbn; try exact Ht2; discriminate.
+Qed.
+
+Lemma handler_step_pc cfg s c r c' e : handler_step cfg s c r = Some (c', e) -> pc c' = pc c \/ e = EDie.
+Proof.
+  unfold handler_step. intros H. destruct (take_handler r (hs c)) as [[sc others]|]; [|discriminate].
+  destruct sc as [|h rest]; [inversion H; left; reflexivity|].
+  destruct (negb (hstep_enabled s c h)); [discriminate|].
+  destruct h; [|destruct (recovery cfg && handler_rec cfg)|..]; inversion H; subst; auto.
+Qed.
 
 Lemma conn_step_intr cfg s c c' e : conn_step cfg s c = Some (c', e) -> interrupted c' = interrupted c.
 Proof.
@@ -1171,7 +1207,7 @@ Proof.
     destruct (negb (hstep_enabled s c h)); [discriminate|].
     destruct h; [|destruct (recovery cfg)|..]; inversion H; reflexivity.
   - destruct todo as [|t rest]; [inversion H; reflexivity|].
-    destruct t; [|destruct (inflight c =? 0); [|discriminate]| |destruct (negb (has_onclose cfg)); [|destruct (onclose_held s); [discriminate|]]];
+    destruct t; [|destruct (inflight c =? 0); [|discriminate]| |destruct (negb (has_onclose cfg)); [|destruct (onclose_held s); [discriminate|]]|];
       inversion H; reflexivity.
   - discriminate.
 Qed.
@@ -1184,10 +1220,12 @@ Proof.
   destruct h; [|destruct (recovery cfg && handler_rec cfg)|..]; inversion H; reflexivity.
 Qed.
 
-Lemma Forall_intr_update cs i c c' : Forall (fun c => interrupted c = true) cs -> nth_error cs i = Some c ->
-  interrupted c' = interrupted c -> Forall (fun c => interrupted c = true) (update_nth i (fun _ => c') cs).
+Lemma Forall_intr_update cs i c c' : Forall reached cs -> nth_error cs i = Some c ->
+  interrupted c' = interrupted c -> (tracked c = false -> tracked c' = false) ->
+  Forall reached (update_nth i (fun _ => c') cs).
 Proof.
-  intros HF Hn He. apply Forall_update_nth; [exact HF|]. intros x Hx Px. rewrite Hn in Hx. inversion Hx; subst. congruence.
+  intros HF Hn He Ht. apply Forall_update_nth; [exact HF|]. intros x Hx Px. rewrite Hn in Hx. inversion Hx; subst.
+  destruct Px as [Px|Px]; [left; congruence|right; auto].
 Qed.
 
 Theorem intr_inv_reachable cfg s : reachable cfg s -> intr_inv cfg s.
@@ -1206,7 +1244,7 @@ Proof.
         destruct (accept_err s0); [destruct (accept_retry cfg); inversion Hs; subst; cbn; exact (H Hsi)|].
         destruct (backlog s0); [discriminate|inversion Hs; subst; cbn; exact (H Hsi)].
       * inversion Hs; subst; cbn. intros Hp. apply Forall_app. split; [exact (H Hsi Hp)|].
-        constructor; [|constructor]. cbn. rewrite Hsi. cbn.
+        constructor; [|constructor]. left. cbn. rewrite Hsi. cbn.
         apply K3. clear -Hp. induction (stops s0) as [|p r IH]; [discriminate|]. cbn in *.
         apply orb_true_iff in Hp. destruct Hp as [Hp|Hp]; [destruct p; try discriminate; reflexivity|].
         rewrite (IH Hp). apply orb_true_r.
@@ -1217,13 +1255,18 @@ Proof.
       * inversion Hs; subst; cbn. rewrite Hsi. intros Hp.
         destruct (existsb_update_nth _ _ _ _ _ En Hp) as [G|G]; [discriminate|exact (H Hsi G)].
       * inversion Hs; subst; cbn. intros _. unfold interrupt_all. rewrite Forall_forall. intros x Hx.
-        apply in_map_iff in Hx. destruct Hx as (y & <- & _). reflexivity.
+        apply in_map_iff in Hx. destruct Hx as (y & <- & _). unfold reached, interrupt_tracked.
+        destruct (tracked y) eqn:Ety; [left; reflexivity|right; exact Ety].
       * destruct (connwg s0 =? 0); [|discriminate]. inversion Hs; subst; cbn. intros _.
         apply (H Hsi). eapply existsb_nth; [exact En|reflexivity].
     + destruct (with_conn_frame _ _ _ _ Hs) as [(_ & _ & _ & _ & _ & Hst & _) (c & c' & e & Hn & Hf & Hc & _)].
-      rewrite Hst, Hc. intros Hp. eapply Forall_intr_update; [exact (H Hsi Hp)|exact Hn|eapply conn_step_intr; eauto].
+      rewrite Hst, Hc. intros Hp. eapply Forall_intr_update; [exact (H Hsi Hp)|exact Hn|eapply conn_step_intr; eauto|eapply conn_step_untracked; eauto].
     + destruct (with_conn_frame _ _ _ _ Hs) as [(_ & _ & _ & _ & _ & Hst & _) (c & c' & e & Hn & Hf & Hc & _)].
-      rewrite Hst, Hc. intros Hp. eapply Forall_intr_update; [exact (H Hsi Hp)|exact Hn|eapply handler_step_intr; eauto].
+      rewrite Hst, Hc. intros Hp. eapply Forall_intr_update; [exact (H Hsi Hp)|exact Hn|eapply handler_step_intr; eauto|].
+      intros Ht. unfold tracked in *. unfold handler_step in Hf. destruct (take_handler ri (hs c)) as [[sc others]|]; [|discriminate].
+      destruct sc as [|h rest]; [inversion Hf; subst; exact Ht|].
+      destruct (negb (hstep_enabled s0 c h)); [discriminate|].
+      destruct h; [|destruct (recovery cfg && handler_rec cfg)|..]; inversion Hf; subst; exact Ht.
     + destruct (run s0); try discriminate. inversion Hs; subst; cbn; exact (H Hsi).
     + inversion Hs; subst; cbn. intros Hp. rewrite existsb_app in Hp. cbn in Hp. rewrite orb_false_r in Hp. exact (H Hsi Hp).
     + destruct (lst s0); try discriminate. inversion Hs; subst; cbn; exact (H Hsi).
@@ -1261,36 +1304,58 @@ Proof.
   - destruct (input c) as [|[| |] ?]; rewrite ?Hi; reflexivity.
 Qed.
 
+(* an untracked connection (late untrack) has only OnClose / Done left *)
+Lemma untracked_rest cfg c todo : untrack_late cfg = true -> td_inv cfg c -> pc c = CTeardown todo ->
+  existsb is_untrack todo = false ->
+  todo = [TOnClose; TWgDone] \/ todo = [TWgDone] \/ todo = [TOnClose] \/ todo = [].
+Proof.
+  intros Hul [Hsuf _] Hpc Hnt. rewrite Hpc in Hsuf. destruct Hsuf as [Hsuf Hlen].
+  unfold teardown_of, teardown_core in Hsuf. rewrite Hul in Hsuf.
+  destruct (wg_last cfg); cbn [app] in Hsuf;
+    destruct todo as [|a [|b [|c0 [|d [|e0 r]]]]]; cbn in *; try lia;
+    inversion Hsuf; subst; cbn in Hnt; try discriminate; auto.
+Qed.
+
 Lemma conn_progress cfg s c :
-  td_inv cfg c -> wgdone c = false -> cancelled s = true -> interrupted c = true -> onclose_held s = false ->
+  untrack_late cfg = true ->
+  td_inv cfg c -> wgdone c = false -> cancelled s = true -> reached c -> onclose_held s = false ->
   (forall r sc, In (r, sc) (hs c) -> script_ok s sc) -> (forall k sc, pc c = CInline k sc -> script_ok s sc) ->
   conn_step cfg s c <> None \/ exists r, handler_step cfg s c r <> None.
 Proof.
-  intros Htd Hw Hc Hi Hh Hsc Hin.
-  unfold conn_step. rewrite Hc, Hh.
-  destruct (pc c) as [| | |k sc|todo|] eqn:Epc.
-  - left. discriminate.
-  - left. unfold can_write. rewrite Hi. rewrite orb_true_r. cbn. discriminate.
-  - left. destruct (input c) as [|it rest]; [rewrite Hi, orb_true_r; discriminate|].
-    destruct it as [k sc| |]; [destruct k; [| |destruct (has_unbind_route cfg)]|..]; discriminate.
-  - left. destruct sc as [|h rest]; [destruct k; discriminate|].
-    rewrite (hstep_enabled_intr s c h rest Hi (Hin k (h :: rest) eq_refl)). cbn [negb].
-    destruct h; [|destruct (recovery cfg)|..]; discriminate.
-  - destruct todo as [|t rest]; [left; discriminate|].
-    destruct t.
+  intros Hul Htd Hw Hc Hreach Hh Hsc Hin.
+  assert (Hdone : pc c <> CDone).
+  { intros Epc. destruct Htd as (_ & _ & _ & Hwg & _). unfold done_of in Hwg. rewrite Epc in Hwg.
+    rewrite Hw in Hwg. destruct (teardown_of_cases cfg) as [E|[E|[E|E]]]; rewrite E in Hwg; discriminate. }
+  destruct Hreach as [Hi|Hut].
+  - unfold conn_step. rewrite Hc, Hh.
+    destruct (pc c) as [| | |k sc|todo|] eqn:Epc.
     + left. discriminate.
-    + destruct (inflight c =? 0) eqn:E0; [left; discriminate|]. right.
-      destruct Htd as (_ & _ & _ & _ & _ & Hinf & _). apply Nat.eqb_neq in E0. rewrite Hinf in E0.
-      destruct (hs c) as [|[r0 sc0] others] eqn:Eh; [cbn in E0; congruence|].
-      exists r0. unfold handler_step. rewrite Eh. cbn [take_handler]. rewrite Nat.eqb_refl.
-      destruct sc0 as [|h rest0]; [discriminate|].
-      assert (script_ok s (h :: rest0)) as Hok by (apply (Hsc r0); left; reflexivity).
-      rewrite (hstep_enabled_intr s c h rest0 Hi Hok). cbn [negb].
-      destruct h; [|destruct (recovery cfg && handler_rec cfg)|..]; discriminate.
-    + left. discriminate.
-    + left. destruct (negb (has_onclose cfg)); discriminate.
-  - exfalso. destruct Htd as (_ & _ & _ & Hwg & _). unfold done_of in Hwg. rewrite Epc in Hwg.
-    rewrite Hw in Hwg. destruct (teardown_of_cases cfg) as [E|E]; rewrite E in Hwg; discriminate.
+    + left. unfold can_write. rewrite Hi. rewrite orb_true_r. cbn. discriminate.
+    + left. destruct (input c) as [|it rest]; [rewrite Hi, orb_true_r; discriminate|].
+      destruct it as [k sc| |]; [destruct k; [| |destruct (has_unbind_route cfg)]|..]; discriminate.
+    + left. destruct sc as [|h rest]; [destruct k; discriminate|].
+      rewrite (hstep_enabled_intr s c h rest Hi (Hin k (h :: rest) eq_refl)). cbn [negb].
+      destruct h; [|destruct (recovery cfg)|..]; discriminate.
+    + destruct todo as [|t rest]; [left; discriminate|].
+      destruct t.
+      * left. discriminate.
+      * destruct (inflight c =? 0) eqn:E0; [left; discriminate|]. right.
+        destruct Htd as (_ & _ & _ & _ & _ & Hinf & _). apply Nat.eqb_neq in E0. rewrite Hinf in E0.
+        destruct (hs c) as [|[r0 sc0] others] eqn:Eh; [cbn in E0; congruence|].
+        exists r0. unfold handler_step. rewrite Eh. cbn [take_handler]. rewrite Nat.eqb_refl.
+        destruct sc0 as [|h rest0]; [discriminate|].
+        assert (script_ok s (h :: rest0)) as Hok by (apply (Hsc r0); left; reflexivity).
+        rewrite (hstep_enabled_intr s c h rest0 Hi Hok). cbn [negb].
+        destruct h; [|destruct (recovery cfg && handler_rec cfg)|..]; discriminate.
+      * left. discriminate.
+      * left. destruct (negb (has_onclose cfg)); discriminate.
+      * left. discriminate.
+    + congruence.
+  - (* not reached by the pass: it had left the table, so only OnClose / Done remain *)
+    left. unfold tracked in Hut. unfold conn_step. rewrite Hh.
+    destruct (pc c) as [| | |k sc|todo|] eqn:Epc; try discriminate; [|congruence].
+    destruct (untracked_rest cfg c todo Hul Htd Epc Hut) as [-> |[-> |[-> | ->]]];
+      try discriminate; destruct (negb (has_onclose cfg)); discriminate.
 Qed.
 
 Lemma pending_pos cs : pending cs <> 0 -> exists i c, nth_error cs i = Some c /\ wgdone c = false.
@@ -1302,12 +1367,12 @@ Proof.
 Qed.
 
 Theorem stop_progress cfg s :
-  stop_interrupts cfg = true -> add_before_accept cfg = true ->
+  stop_interrupts cfg = true -> add_before_accept cfg = true -> untrack_late cfg = true ->
   reachable cfg s -> alive s = true ->
   (exists i p, nth_error (stops s) i = Some p /\ p <> SRet) -> no_external_block s ->
   exists l, internal l = true /\ step cfg s l <> None.
 Proof.
-  intros Hsi Haba Hr Hal (i & p & Hn & Hp) (Hheld & Hscripts).
+  intros Hsi Haba Hul Hr Hal (i & p & Hn & Hp) (Hheld & Hscripts).
   destruct (srv_inv_reachable cfg s Hr) as (_ & _ & _ & _ & _ & _ & _ & _ & _ & _ & K2 & K3).
   pose proof (wg_inv_reachable cfg s Hr) as Hwg.
   pose proof (td_inv_reachable cfg s Hr) as Htd.
@@ -1322,7 +1387,7 @@ Proof.
     + apply Nat.eqb_neq in E0.
       assert (stop_in_progress s = true) as Hsp by (unfold stop_in_progress; eapply existsb_nth; [exact Hn|reflexivity]).
       assert (cancelled s = true) as Hc by (apply K3; eapply existsb_nth; [exact Hn|reflexivity]).
-      assert (Forall (fun c => interrupted c = true) (conns s)) as Hall
+      assert (Forall reached (conns s)) as Hall
           by (apply Hintr; eapply existsb_nth; [exact Hn|reflexivity]).
       unfold wg_inv in Hwg. rewrite Haba in Hwg.
       destruct (run s) eqn:Er;
@@ -1331,7 +1396,7 @@ Proof.
              assert (In c (conns s)) as Hinc by (eapply nth_error_In; eauto);
              rewrite Forall_forall in Htd, Hall;
              destruct (Hscripts c Hinc) as [Hs1 Hs2];
-             destruct (conn_progress cfg s c (Htd c Hinc) Hwd Hc (Hall c Hinc) Hheld Hs1 Hs2) as [Hcs|[r Hhs]];
+             destruct (conn_progress cfg s c Hul (Htd c Hinc) Hwd Hc (Hall c Hinc) Hheld Hs1 Hs2) as [Hcs|[r Hhs]];
              [exists (LConn j); split; [reflexivity|]; unfold with_conn; rewrite Hj;
               destruct (conn_step cfg s c) as [[c' e]|]; [discriminate|congruence]
              |exists (LHandler j r); split; [reflexivity|]; unfold with_conn; rewrite Hj;
@@ -1352,3 +1417,23 @@ Lemma stop_progress_pinned_refuted :
             step pinned_cfg s (LStop 0) = None /\ step pinned_cfg s LRun = None /\
             step pinned_cfg s (LConn 0) = None.
 Proof. eexists. split; [vm_compute; reflexivity|]. repeat split. eexists. split; reflexivity. Qed.
+
+(* untrackConn before conn.close (the first version of the F9 repair): a connection
+   whose read loop has ended (Unbind) while a handler is blocked writing to a client
+   that does not read has left Stop's table; the pass reaches nothing and Stop waits
+   for a client for ever.  Every other field as in the current tree. *)
+Definition early_untrack_cfg : config :=
+  {| recovery := true; handler_rec := true; wg_last := true; add_before_accept := true;
+     stop_interrupts := true; ready_on_error := false; close_on_cancel := true; accept_retry := true;
+     untrack_late := false; has_unbind_route := true; has_onclose := true |}.
+
+Lemma stop_progress_early_untrack_refuted :
+  exists s, run_labels early_untrack_cfg init
+              [ECallRun true true; LRun; LRun; EConnect; LRun; LRun; LRun; LConn 0; LConn 0; EStall 0 true;
+               ESend 0 (IReq KNormal [HWrite]); LConn 0; ESend 0 (IReq KUnbind []); LConn 0; LConn 0; LConn 0; LConn 0;
+               ECallStop; LStop 0; LStop 0; LStop 0; LRun] = Some s /\
+            nth_error (stops s) 0 = Some SWait /\ onclose_held s = false /\
+            (exists c, nth_error (conns s) 0 = Some c /\ hs c = [(1, [HWrite])] /\ interrupted c = false /\ tracked c = false) /\
+            step early_untrack_cfg s (LStop 0) = None /\ step early_untrack_cfg s LRun = None /\
+            step early_untrack_cfg s (LConn 0) = None /\ step early_untrack_cfg s (LHandler 0 1) = None.
+Proof. eexists. split; [vm_compute; reflexivity|]. repeat split. eexists. repeat split. Qed.
